@@ -594,6 +594,17 @@ class Gen:
                     c['abc'] = True
                 elif r < 0.3:
                     c['abstractmethod'] = True
+        # a class between an abstract root with an abstract method and a
+        # leaf may leave the method unimplemented: abstract by inheritance
+        for c in self.classes:
+            bs = c.get('bases', [])
+            if c.get('kind') == 'plain' and len(bs) == 1 and any(
+                    d['name'] == bs[0] and (d.get('abstractmethod')
+                                            or d.get('keep_abstract'))
+                    for d in self.classes) and any(
+                    c['name'] in d.get('bases', []) for d in self.classes) \
+                    and rng.random() < 0.5:
+                c['keep_abstract'] = True
         for c in self.classes:
             self.add_seasoning(c)
         self.vary_defaults()
